@@ -265,7 +265,7 @@ def run(ctx) -> Report:
     rep.assumptions = ["sha512 modelled by itself: distinct pre-hash data are taken to give distinct digests", "traversal drivers modelled (C19)", "finite elements are abstract objects identified by their repr / signature string"]
     from ..memokey import memo_rule
 
-    memo_rule(ctx, rep, "C11-key", ['ufl.algorithms.signature'])
+    memo_rule(ctx, rep, "C11-key", ["ufl.algorithms.signature", "ufl.functionspace", "ufl.domain", "ufl.form", "ufl.integral", "ufl.coefficient", "ufl.constant", "ufl.argument", "ufl.geometry", "ufl.constantvalue", "ufl.core.terminal", "ufl.core.multiindex", "ufl.variable"])
     return rep
 
 
